@@ -154,6 +154,9 @@ def explore_parallel(name, factory, params, signature=None, max_paths=None, chun
     t0 = time.time()
     key = name
     _REG[key] = (factory, params, signature)
+    if deadline_s is None and os.environ.get('VERIF_DEADLINE_S'):
+        # wall-clock cap per exploration (harness.run sets it for the thorough tier); reported as unexplored work, never as success
+        deadline_s = float(os.environ['VERIF_DEADLINE_S'])
     total = Section(name)
     nproc = nproc or NPROC
     ctx = mp.get_context('fork')
